@@ -513,10 +513,12 @@ func verifRawSocketCase(dir string, caseNo int, line string) (string, string) {
 	} else {
 		deadline := time.Now().Add(2 * time.Second)
 		for time.Now().Before(deadline) {
+			// (one critical section: an accept between two separate checks would slip through)
+			want := 1 + lbuf.count("Successfully reconnected")
 			sink.rec.mu.Lock()
-			open := sink.rec.open
+			drained := sink.rec.open == 0 && (len(sink.rec.conns) >= want || !up)
 			sink.rec.mu.Unlock()
-			if open == 0 && (sink.acceptedAll(lbuf) || !up) {
+			if drained {
 				break
 			}
 			time.Sleep(100 * time.Microsecond)
